@@ -47,15 +47,32 @@ def run(ctx):
 
 def _nodefault(ctx, index, env):
     f, _xname, yname, _fields, _joint, _ctor = c02.emit_lists(ctx, index)
-    lams = []
+    builders = []
     for n in iter_own(f.node):
         if isinstance(n, (ast.Assign, ast.AnnAssign)) and n.value is not None:
             tg = n.targets if isinstance(n, ast.Assign) else [n.target]
             if any(norm(t) == yname for t in tg):
-                lams += [x for x in ast.walk(n.value) if isinstance(x, ast.Lambda)]
-    ctx.need(len(lams) == 1 and len(lams[0].args.args) == 1, "cannot find the one-argument lambda that builds the default list")
-    lam = lams[0]
-    pname = lam.args.args[0].arg
+                ew = c02.elementwise(n.value)
+                if ew is not None:
+                    builders.append(ew)
+    ctx.need(len(builders) == 1, "cannot find the element-wise expression that builds the default list")
+    _it, binder, body, _flt = builders[0]
+
+    class _B(object):
+        lineno = body.lineno
+
+    lam = _B()
+    lam.body = body
+
+    def bind(entry):
+        """bind the element ('x', entry) to the lambda parameter / comprehension target"""
+        if isinstance(binder, str):
+            return {binder: ("x", entry)}
+        if isinstance(binder, ast.Name):
+            return {binder.id: ("x", entry)}
+        if isinstance(binder, ast.Tuple) and len(binder.elts) == 2 and all(isinstance(e, ast.Name) for e in binder.elts):
+            return {binder.elts[0].id: "x", binder.elts[1].id: entry}
+        ctx.need(False, "unexpected binder of the default list builder: {}".format(norm(binder)))
 
     def resolve(e, binding):
         """follow IfExp arms whose test folds under the binding; returns list of (result expr, path text)"""
@@ -69,13 +86,13 @@ def _nodefault(ctx, index, env):
 
     # is the list filtered before it reaches arguments(...)? (a filter(None, ...) would drop Python None entries)
     for label, entry in (("no `default` key", {}),):
-        results = resolve(lam.body, {pname: ("x", dict(entry, typ="int", doc="d"))})
+        results = resolve(lam.body, bind(dict(entry, typ="int", doc="d")))
         for r, _p in results:
             absent = isinstance(r, ast.Constant) and r.value is None
             ctx.ob(
                 "C04.nodefault",
                 f,
-                "default of a parameter with {} -> {}".format(label, short(r, 60)),
+                "a parameter with {} gets no default node".format(label),
                 absent,
                 ""
                 if absent
@@ -175,7 +192,12 @@ def _classdefault(ctx, index, env):
         ctx.ob(
             "C04.classdefault",
             f,
-            "AnnAssign(value={}) for an entry without `default`".format(short(vkw, 60)),
+            "AnnAssign annotated {} has no value for an entry without `default`".format(
+                next(
+                    (repr(c.value) for k in r.value.keywords if k.arg == "annotation" for c in ast.walk(k.value) if isinstance(c, ast.Constant) and isinstance(c.value, str)),
+                    "with the entry's own type",
+                )
+            ),
             got == "ABSENT",
             ""
             if got == "ABSENT"
@@ -237,9 +259,7 @@ def _required(ctx, index):
     ctx.ob(
         "C04.required",
         f,
-        "'required' keyword when [{}] ; 'default' keyword when [{}]".format(
-            ", ".join(("" if v else "not ") + a for a, v in sorted(ra)), ", ".join(("" if v else "not ") + a for a, v in sorted(da))
-        ),
+        "'required' and 'default' keywords are mutually exclusive",
         exclusive,
         ""
         if exclusive
